@@ -7,6 +7,7 @@ import (
 	"encoding/pem"
 	"errors"
 	"io"
+	"net"
 	"net/http"
 
 	"go.temporal.io/server/common/log"
@@ -168,6 +169,40 @@ func verifHarness_C19_server() {
 	verifAssert(cfg.ClientAuth == tls.RequireAndVerifyClientCert, "server:client-certificate-required-and-verified-against-CA")
 	c19PoolOK(cfg.ClientCAs, "server")
 	verifAssert(!cfg.InsecureSkipVerify, "server:no-insecure-skip")
+	// crypto/tls: a non-nil config returned by GetConfigForClient replaces this one for that connection,
+	// so whatever it hands out for any ClientHello must enforce the same
+	if cfg.GetConfigForClient != nil {
+		hello := &tls.ClientHelloInfo{ServerName: "peer", Conn: c19Conn{}}
+		switch verifChoose("client-hello-alpn", 4) {
+		case 1:
+			hello.SupportedProtos = []string{"h2"}
+		case 2:
+			hello.SupportedProtos = []string{"http/1.1"}
+		case 3:
+			hello.SupportedProtos = []string{"yamux", "h2"}
+		}
+		per, perr := cfg.GetConfigForClient(hello)
+		verifReach("per-connection-config-callback-run")
+		if perr == nil && per != nil {
+			verifAssert(per.ClientAuth == tls.RequireAndVerifyClientCert, "server:per-connection-config-requires-and-verifies-the-client-certificate")
+			c19PoolOK(per.ClientCAs, "server-per-connection")
+			verifAssert(!per.InsecureSkipVerify, "server:per-connection-config-no-insecure-skip")
+		}
+	}
+}
+
+type c19Conn struct{ net.Conn }
+type c19Addr struct{}
+
+func (c19Addr) Network() string      { return "tcp" }
+func (c19Addr) String() string       { return "peer:1" }
+func (c19Conn) RemoteAddr() net.Addr { return c19Addr{} }
+
+func verifStub_SupportsCertificate(h *tls.ClientHelloInfo, c *tls.Certificate) error {
+	if verifChoose("hello-supports-our-certificate", 2) == 1 {
+		return errors.New("verif: client does not support the certificate")
+	}
+	return nil
 }
 
 func verifHarness_C19_client() {
